@@ -55,6 +55,8 @@ def constraint_holds(rule, slots, i, feat):
     if kind == 'gattr': return (s.gid if k == GA0 else s.gid % 3) == v
     if kind == 'user': return s.user == v
     if kind == 'feat': return feat == v
+    if kind == 'sadv': return s.adv == v          # slot attribute advance.x of the named item (may be a pre-context or a later item)
+    if kind == 'sshift': return s.shift == v
     raise ValueError(kind)
 
 
@@ -82,6 +84,10 @@ def run_pass(rules, slots, feat):
                         slots[pos].gid = CLASSES[a[2]][inc.index(g)]; slots[pos].adv = ADV[slots[pos].gid]
                     elif a[0] == 'delete': deleted = True
                     elif a[0] == 'adv': slots[pos].adv = a[1]
+                    elif a[0] == 'advadd': slots[pos].adv += a[1]
+                    elif a[0] == 'shiftadd': slots[pos].shift += a[1]
+                    elif a[0] == 'shiftsub': slots[pos].shift -= a[1]
+                    elif a[0] == 'useradd': slots[pos].user += a[1]
                     elif a[0] == 'shift': slots[pos].shift = a[1]
                     elif a[0] == 'user': slots[pos].user = a[1]
                     elif a[0] == 'attach':
@@ -129,6 +135,10 @@ def compile_rule(rule):
             elif a[0] == 'subs': code += A('PUT_SUBS', 0, 0, a[1], 0, a[2])
             elif a[0] == 'delete': deleted = True
             elif a[0] == 'adv': code += push(a[1]) + A('ATTR_SET', SLAT['advX'])
+            elif a[0] == 'advadd': code += push(a[1]) + A('ATTR_ADD', SLAT['advX'])
+            elif a[0] == 'shiftadd': code += push(a[1]) + A('ATTR_ADD', SLAT['shiftX'])
+            elif a[0] == 'shiftsub': code += push(a[1]) + A('ATTR_SUB', SLAT['shiftX'])
+            elif a[0] == 'useradd': code += push(a[1]) + A('IATTR_ADD', SLAT['userDefn'], 0)
             elif a[0] == 'shift': code += push(a[1]) + A('ATTR_SET', SLAT['shiftX'])
             elif a[0] == 'user': code += push(a[1]) + A('IATTR_SET', SLAT['userDefn'], 0)
             elif a[0] == 'attach': code += push(-1) + A('ATTR_SET_SLOT', SLAT['attTo']) + push(a[1]) + A('ATTR_SET', SLAT['attX']) + push(a[2]) + A('ATTR_SET', SLAT['attY'])
@@ -139,6 +149,8 @@ def compile_rule(rule):
         idx, kind, k, v = rule.constraint
         if kind == 'gattr': body = A('PUSH_GLYPH_ATTR', 0, k, 0) + push(v) + A('EQUAL')
         elif kind == 'user': body = A('PUSH_ISLOT_ATTR', SLAT['userDefn'], 0, 0) + push(v) + A('EQUAL')
+        elif kind == 'sadv': body = A('PUSH_SLOT_ATTR', SLAT['advX'], 0) + push(v) + A('EQUAL')
+        elif kind == 'sshift': body = A('PUSH_SLOT_ATTR', SLAT['shiftX'], 0) + push(v) + A('EQUAL')
         else: body = A('PUSH_FEAT', 0, 0) + push(v) + A('EQUAL')
         con = A('CNTXT_ITEM', idx, len(body)) + body + A('POP_RET')
     pattern = [set(CLASSES[c]) for c in rule.classes()]
@@ -246,6 +258,21 @@ def programs(tier):
             for pi, P in enumerate((LRule([], [(end, [('glyph', OD)]), (IB, [('glyph', OC)])]), LRule([], [(end, [('glyph', OD)]), (IB, [('glyph', OC)])], ret=-1), LRule([], [(end, [('glyph', OD)]), (IB, [('glyph', OC)]), (IABCD, [])]))):
                 for ti, T in enumerate((LRule([], [(IBC, [('glyph', OZ)])]), LRule([], [(IABCD, [('glyph', OX)])]))):
                     yield dict(kind='backup_chain', passes=[dict(rules=chain + [P, T], maxloop=M)], rtl=0, ids=(M, k, pi, ti))
+    # attribute arithmetic and attribute read-back: ATTR_ADD / ATTR_SUB / IATTR_ADD on one item of a rule; constraints that read advance / shift of the
+    # item itself, of the pre-context item and of the following item; a first pass that changes the attribute the second pass's constraint reads
+    ARITH = [('advadd', 30), ('shiftadd', 20), ('shiftsub', 15), ('useradd', 2), ('adv', 0)]
+    for act in ARITH:
+        for cls in (IA, IAB):
+            yield dict(kind='attr_ops', passes=[dict(rules=[LRule([], [(cls, [act])])])], rtl=0)
+            yield dict(kind='attr_ops', passes=[dict(rules=[LRule([], [(cls, [act]), (IABCD, [])])])], rtl=0)
+            yield dict(kind='attr_ops', passes=[dict(rules=[LRule([IAB], [(IABCD, []), (cls, [act])])])], rtl=0)
+            yield dict(kind='attr_ops', passes=[dict(rules=[LRule([], [(cls, [act, ('shiftadd', 5)])]), LRule([], [(IABCD, [('shiftadd', 1)])])])], rtl=0)
+    for idx in (-1, 0, 1):
+        for kind, v in (('sadv', ADV[G['a']]), ('sadv', ADV[G['b']]), ('sadv', 777), ('sshift', 0), ('sshift', 20)):
+            pre = [IABCD] if idx < 0 else []
+            r2 = LRule(pre, [(IABCD, [('glyph', OX)]), (IABCD, [])], (idx, kind, 0, v))
+            yield dict(kind='attr_read', passes=[dict(rules=[r2])], rtl=0)
+            yield dict(kind='attr_read', passes=[dict(rules=[LRule([], [(IA, [('adv', 777), ('shiftadd', 20)])])]), dict(rules=[r2])], rtl=0)
     # class lookup: PUT_SUBS through lookup classes of every size 1..8 in two member orders; every member is substituted (alone and in a run)
     for (n, lay), (cin, cout) in sorted(SUBCLS.items()):
         mem = CLASSES[cin]; inv = {g: c for c, g in CMAP.items()}
